@@ -6,7 +6,7 @@ from . import dbcommon as C, specvalid as V
 
 ID = "C01"
 LEAN_MODULES = ["SqliteDissect.Properties.C01Tree", "SqliteDissect.Properties.C01", "SqliteDissect.Properties.C01Cell", "SqliteDissect.Properties.C15", "SqliteDissect.Properties.C16",
-                "SqliteDissect.Properties.C06"]
+                "SqliteDissect.Properties.C06", "SqliteDissect.Properties.C01Schema"]
 RULE = ("databases built by SQLite 3.40.1 over the grid page size x encoding x auto-vacuum with random rowid-table "
         "schemas, boundary values, threshold-sized payloads and insert/update/delete churn; each database is dumped "
         "by the implementation and by the Lean model (db.dump: header, freelist, pointer map, schema rows, every "
